@@ -9,7 +9,7 @@ set_option linter.unusedSimpArgs false
 set_option linter.unusedVariables false
 set_option linter.unusedSectionVars false
 
-namespace AurelVerif.C05
+namespace AurelVerif.C05L
 open AurelVerif.Gen.Core AurelVerif.Tensor AurelVerif.CoreTac AurelVerif.C08 AurelVerif.Spec.Covd
 
 variable {K : Type} [Field K]
@@ -135,4 +135,4 @@ theorem s_RicciS_bssnok_spec (e : Env K) :
     s_RicciS_bssnok e = ricciS e.gammaup3_bssnok e.s_Ricci_down3_bssnok := by
   simp only [core_unfold, ricciS, Fin.sum_univ_three]; try ring
 
-end AurelVerif.C05
+end AurelVerif.C05L
